@@ -103,6 +103,17 @@ pub(crate) fn compute(
     let coset = quotient_domain.coset_ifft(&quotient);
     let quotient_poly = Polynomial::from_coefficients_vec(coset);
 
+    // verification seam: a forced prover drops the remainder and carries on
+    #[cfg(plonk_verif)]
+    let quotient_poly = if crate::verif::force_enabled() {
+        let keep = 4 * (quotient_domain.size() / 8) + 7;
+        Polynomial::from_coefficients_vec(
+            quotient_poly.iter().take(keep).copied().collect(),
+        )
+    } else {
+        quotient_poly
+    };
+
     // A satisfied assignment yields a numerator divisible by the vanishing
     // polynomial of the domain, and the quotient's degree is bounded by the
     // numerator's: the permutation product z(x) (degree n + 2, with hiding
